@@ -158,7 +158,7 @@ Lemma ring_poll_sq s : sq (fst (ring_poll s)) = match cq s with [] => [] | _ => 
 Proof.
   rewrite ring_poll_phases. pose proof (phase1_sq s) as H1. destruct (phase1 s) as [s1 o1].
   cbn [fst] in H1. pose proof (process_sq (length (cq s1)) s1) as Hp.
-  destruct (process (length (cq s1)) s1) as [s2 o2]. cbn [fst] in *. congruence.
+  destruct (process (length (cq s1)) s1) as [s2 o2]. cbn [fst wake_blocked sq] in *. congruence.
 Qed.
 
 (** Attempts change only in [poll]. *)
@@ -416,7 +416,11 @@ Proof.
     destruct (phase1 s) as [s1 o1]. cbn [fst snd] in *.
     pose proof (process_free_budget (length (cq s1)) j s1 H1) as Hp.
     destruct (process (length (cq s1)) s1) as [s2 o2]. cbn [fst snd] in *.
-    rewrite cnt_free_app. assert (budget s1 j = budget s j) by (unfold budget; rewrite Ho; reflexivity). lia.
+    rewrite !cnt_free_app. assert (budget s1 j = budget s j) by (unfold budget; rewrite Ho; reflexivity).
+    assert (Hw : cnt (is_free_of j) (snd (wake_blocked s2)) = 0).
+    { cbn [wake_blocked snd]. induction (firstn _ (blocked s2)) as [|x l IHl]; [reflexivity|].
+      cbn [map]. rewrite cnt_cons. exact IHl. }
+    change (budget (fst (wake_blocked s2)) j) with (budget s2 j). lia.
   - pose proof (budget_stable _ _ j (step_stable s (KPost i c))) as Hb. cbn [step fst] in Hb.
     rewrite cnt_nil. lia.
 Qed.
